@@ -99,6 +99,28 @@ def cases(seed, tier):
             c['extra_lines'] = {str(rng.randrange(k)): ['']}
         yield c
     yield from long_cases(seed, tier)
+    yield from lockstep_cases(seed, tier)
+
+
+def lockstep_cases(seed, tier):
+    """Identical healthy targets audited by two or three workers that move in step (same peer, same latency), with line-level
+    pre-emption: the workers reach the same places - set-up, report, tear-down of their per-thread state - at the same moment,
+    which is when code that touches state shared between workers can be caught in the middle (measured on a seeded race in the
+    tear-down path: 1 hit in 300 such cases, none in 1200 cases of mixed targets)."""
+    for j in range(60 if tier == 'quick' else 1200):
+        rng = gen.case_rng(seed, ID, 'lockstep', j)
+        kind = rng.choice(['clean', 'rsa2048', 'terrapin_marked'])
+        proto = make_target(rng, kind, 0)
+        targets = []
+        for i in range(3):
+            t = copy.deepcopy(proto)
+            t['host'], t['ip'] = 'twin%d.example' % i, '192.0.2.%d' % (40 + i)
+            targets.append(t)
+        mode = rng.choice(['text', 'json'])
+        sched = {'policy': rng.choice(['rr', 'random']), 'seed': rng.getrandbits(32), 'preempt_p': rng.choice([1 / 16.0, 1 / 8.0, 1 / 4.0]),
+                 'preempt_stretch': [rng.choice([40, 400]), rng.choice([400, 4000])]}
+        yield {'targets': targets, 'mode': mode, 'opts': ['-n'] if mode == 'text' else ['-j'], 'threads': rng.choice([2, 3]), 'sched': sched,
+               'net': {'rtt_us': rng.choice([100, 300])}, 'pseed': rng.getrandbits(32), 'timeout': 2}
 
 
 def long_cases(seed, tier):
